@@ -365,13 +365,19 @@ def shrink(check, case, clause, budget_s=30.0, log=None):
     progress = True
     while progress and time.monotonic() < deadline:
         progress = False
-        for cand in check.candidates(cur):
-            if time.monotonic() >= deadline:
-                break
-            if fails(cand):
-                cur = cand
-                progress = True
-                break
+        try:
+            for cand in check.candidates(cur):
+                if time.monotonic() >= deadline:
+                    break
+                if fails(cand):
+                    cur = cand
+                    progress = True
+                    break
+        except Exception:
+            # a bug in a check's candidate generator must not lose the violation: report what we have
+            if log is not None:
+                log['shrink_error'] = traceback.format_exc()[-600:]
+            break
     if log is not None:
         log['shrink_attempts'] = tried
     return cur
